@@ -242,6 +242,11 @@ def check(run: Run) -> None:
     c05.check_prepass_protection(run, "R09.7")
     check_bool_before_int(run, "R09.6", [("core.emitter", "emit_value"), ("core.constraints", "TypeConstraint.evaluate"), ("core.constraints", "RangeConstraint.evaluate"), ("core.validator", "Validator._validate_type")])
     _blank_frontmatter(run)
+    # "validating twice gives the same answer": no state shared between calls (the module / class state rule of C06 R06.3)
+    run.rule("R09.9", "validating twice gives the same answer: module-level and class-level mutable state is never written after import (= C06 R06.3) - a memo shared by all validations, keyed more coarsely than what it stores depends on, makes the second document's verdict depend on the first", 8)
+    from . import c06 as _c06
+
+    _c06._r06_3(run, res, "R09.9")
 
 
 def _blank_frontmatter(run: Run) -> None:
